@@ -402,6 +402,24 @@ def gen_hc(rng):
                   'location': rng.choice([specgen.r_str('Well'), specgen.r_str('elsewhere')]), 'serial_number': specgen.r_str(rng.choice(['SN-1', 'sn 1']))}
         prog.append({'op': 'add', 'lf': 0, 'type': tk, 'name': specgen.r_str(rng.choice(HC_OK_NAMES + HC_BAD_NAMES)), 'set_name': None, 'origin': None, 'kw': kw})
         created += 1
+    # later assignments of restricted aspects, in whatever mode is current THEN (objects may have been created in the other mode)
+    objs_t = [(i, s0.get('type') or s0['op']) for i, s0 in enumerate([x for x in prog if x['op'] in ('origin', 'add', 'channel', 'frame')])]
+    for _ in range(rng.randrange(0, 4)):
+        maybe_ctx()
+        i, tk = rng.choice(objs_t)
+        if tk == 'channel':
+            a = {'attr': 'units', 'part': 'value', 'raw': rng.choice([specgen.r_str('m'), specgen.r_str('furlongs-per-fortnight'), specgen.r_enum('Unit', 'METER')])}
+        elif tk == 'equipment':
+            a = rng.choice([{'attr': '_type', 'part': 'value', 'raw': rng.choice([specgen.r_str('Tool'), specgen.r_str('not-a-type')])},
+                            {'attr': 'location', 'part': 'value', 'raw': rng.choice([specgen.r_str('Well'), specgen.r_str('elsewhere')])},
+                            {'attr': 'height', 'part': 'units', 'raw': rng.choice([specgen.r_str('m'), specgen.r_str('cubits')])}])
+        elif tk == 'frame':
+            a = {'attr': 'index_type', 'part': 'value', 'raw': rng.choice([specgen.r_str('BOREHOLE-DEPTH'), specgen.r_str('sideways')])}
+        elif tk == 'zone':
+            a = {'attr': 'maximum', 'part': 'units', 'raw': rng.choice([specgen.r_str('m'), specgen.r_str('cubits')])}
+        else:
+            continue
+        prog.append({'op': 'assign', 'obj': i, '_type': tk, **a})
     maybe_ctx()
     prog.append({'op': 'write'})
     while depth:
